@@ -11,6 +11,13 @@ Definition A_prune (g : graph) (x : N) : Prop :=
   (exists s, In s (prune_all_nss g) /\ marked g s = true /\ U_ns g s x) \/
   (exists s i, In s (prune_all_nss g) /\ In i (cpn g s) /\ marked g i = true /\ U_cp g i true x).
 
+Definition A_prune7 (g : graph) (x : N) : Prop :=
+  (exists n, In n (prune_nodes g) /\ marked g n = true /\ A_node g (name_of g n) x) \/
+  (exists c n, In (c, n) (prune_comps g) /\ marked g c = true /\ A_comp g n (name_of g c) x) \/
+  (exists s, In s (prune_all_nss g) /\ marked g s = true /\ A_ns g s x) \/
+  (exists s i, In s (prune_all_nss g) /\ In i (cpn g s) /\ marked g i = true /\
+               (U_cp g i true x \/ exists j, In j (disc_list g [i]) /\ U_disc g j x)).
+
 Definition allowed (g : graph) (o : op) (x : N) : Prop :=
   match o with
   | ORemoveNode nm | ORemoveFacility nm | ORemoveSwitch nm => A_node g nm x
@@ -24,6 +31,7 @@ Definition allowed (g : graph) (o : op) (x : N) : Prop :=
   | ORemoveInterface s iname => exists i, In i (cpn g s) /\ name_of g i = iname /\ U_cp g i true x
   | ORemoveChild p iname => exists i, In i (cpn g p) /\ name_of g i = iname /\ (U_cp g i false x \/ U_disc g i x)
   | OPrune => A_prune g x
+  | OPrune7 => A_prune7 g x
   end.
 
 Section Top.
@@ -124,6 +132,60 @@ Proof.
   intros [[xy [E H]]|[xy [E H]]]; exists xy; split; auto.
 Qed.
 
+Lemma Sound_api_prune7 : Sound g0 (A_prune7 g0) api_prune7.
+Proof.
+  unfold api_prune7.
+  apply Sound_bind_get. intros d1. apply Sound_bind_get. intros d2.
+  apply Sound_bind_get. intros d3. apply Sound_bind_get. intros d4.
+  apply Sound_bind'.
+  { apply Inv_for_each_set. intros nn. apply Inv_prune_node7. }
+  { apply Sound_for_each_set. intros [nm n] Hnm. split; [apply Inv_prune_node7|].
+    apply in_map_iff in Hnm. destruct Hnm as [n' [En Hn]]. injection En as En1 En2. subst n'.
+    apply filter_In in Hn. destruct Hn as [Hn Hm].
+    apply prune_nodes_mono in Hn. destruct Hn as [Hn Hd]. apply marked_restrict in Hm. destruct Hm as [Hm _].
+    rewrite name_of_restrict in En1; [|apply memN_false; exact Hd]. subst nm.
+    unfold prune_node7. apply Sound_bind'; [apply Inv_exists_as | apply Sound_get | intros b]. simpl.
+    destruct b; [|apply Sound_ret].
+    apply (Sound_weaken g0 (A_node g0 (name_of g0 n))); [|apply Sound_api_remove_node].
+    intros x Hx. left. exists n. auto. }
+  intros _. apply Sound_bind'.
+  { apply Inv_for_each_set. intros cn. apply Inv_prune_comp7. }
+  { apply Sound_for_each_set. intros [cname [c n]] Hcn. split; [apply Inv_prune_comp7|].
+    apply in_map_iff in Hcn. destruct Hcn as [[c' n'] [E Hc]]. simpl in E. injection E as E1 E2 E3. subst c' n'.
+    apply filter_In in Hc. destruct Hc as [Hc Hm]. simpl in Hm.
+    apply prune_comps_mono in Hc. destruct Hc as [Hc Hd]. apply marked_restrict in Hm. destruct Hm as [Hm _].
+    rewrite name_of_restrict in E1; [|apply memN_false; exact Hd]. subst cname.
+    unfold prune_comp7. simpl. apply Sound_bind'; [apply Inv_exists_as | apply Sound_get | intros b].
+    destruct b; [|apply Sound_ret].
+    apply (Sound_weaken g0 (A_comp g0 n (name_of g0 c))); [|apply Sound_api_remove_component].
+    intros x Hx. right. left. exists c, n. auto. }
+  intros _. apply Sound_bind'.
+  { apply Inv_for_each_set. intros s. apply Inv_prune_ns7. }
+  { apply Sound_for_each_set. intros s Hs. split; [apply Inv_prune_ns7|].
+    rewrite dedup_In in Hs. apply filter_In in Hs. destruct Hs as [Hs Hm].
+    apply prune_all_nss_mono in Hs. destruct Hs as [Hs _]. apply marked_restrict in Hm. destruct Hm as [Hm _].
+    unfold prune_ns7. apply Sound_bind'; [apply Inv_exists_as | apply Sound_get | intros b].
+    destruct b; [|apply Sound_ret].
+    apply (Sound_weaken g0 (A_ns g0 s)); [|apply Sound_remove_ns_disconnecting].
+    intros x Hx. right. right. left. exists s. auto. }
+  intros _. apply Sound_for_each_set. intros i Hi. split; [apply Inv_prune_if7|].
+  rewrite dedup_In in Hi. apply filter_In in Hi. destruct Hi as [Hi Hm].
+  apply in_flat_map in Hi. destruct Hi as [s [Hs Hi]].
+  apply prune_all_nss_mono in Hs. destruct Hs as [Hs _]. apply marked_restrict in Hm. destruct Hm as [Hm _].
+  unfold ns_interfaces in Hi. apply first_neighbor_restrict in Hi; [|discriminate]. destruct Hi as [Hi _].
+  unfold prune_if7. apply Sound_bind'; [apply Inv_exists_as | apply Sound_get | intros b].
+  destruct b; [|apply Sound_ret].
+  apply Sound_bind_get. intros d5.
+  apply Sound_bind'.
+  { apply Inv_for_each_set. intros j. apply Inv_disconnect_step. }
+  { apply (Sound_peers_loop g0 _ (fun j => In j (disc_list g0 [i]))).
+    - intros j Hj. apply (disc_list_mono g0 d5); [auto | exact Hj].
+    - intros j x Hj Hx. right. right. right. exists s, i. split; [exact Hs|]. split; [exact Hi|]. split; [exact Hm|].
+      right. exists j. auto. }
+  intros _. apply (Sound_weaken g0 (U_cp g0 i true)); [|apply Sound_remove_cp].
+  intros x Hx. right. right. right. exists s, i. auto.
+Qed.
+
 Lemma Sound_then_ret {A B} P (m : M A) (v : B) : Inv m -> Sound g0 P m -> Sound g0 P (bind m (fun _ => ret v)).
 Proof. intros Im Hm. apply Sound_bind'; [exact Im | exact Hm | intros _; apply Sound_ret]. Qed.
 
@@ -186,4 +248,5 @@ Proof.
   - refine (Sound_run g _ _ _ _ _ _ E).
     apply Sound_bind'; [apply Inv_api_remove_child | apply Sound_api_remove_child | intros c; apply Sound_ret].
   - apply (Sound_run g _ _ _ _ _ (Sound_then_ret g _ _ _ Inv_api_prune (Sound_api_prune g)) E).
+  - apply (Sound_run g _ _ _ _ _ (Sound_then_ret g _ _ _ Inv_api_prune7 (Sound_api_prune7 g)) E).
 Qed.
